@@ -340,6 +340,28 @@ class _rewrite_captured_vars(ast.NodeTransformer):
         self._ignore_stack.pop()
         return v
 
+    def _visit_comprehension(self, node: Any) -> Any:
+        """The loop variables of a comprehension are bound inside it - like lambda
+        arguments they must never be replaced by a captured value of the same name."""
+        frame: List[str] = []
+        self._ignore_stack.append(frame)
+        for g in node.generators:
+            g.iter = self.visit(g.iter)
+            frame.extend(n.id for n in ast.walk(g.target) if isinstance(n, ast.Name))
+            g.ifs = [self.visit(i) for i in g.ifs]
+        if isinstance(node, ast.DictComp):
+            node.key = self.visit(node.key)
+            node.value = self.visit(node.value)
+        else:
+            node.elt = self.visit(node.elt)
+        self._ignore_stack.pop()
+        return node
+
+    visit_ListComp = _visit_comprehension
+    visit_GeneratorExp = _visit_comprehension
+    visit_SetComp = _visit_comprehension
+    visit_DictComp = _visit_comprehension
+
     def visit_Call(self, node: ast.Call) -> Any:
         "If the rewritten call turns into an actual function, then we have to bail,"
         old_func = node.func
